@@ -243,7 +243,7 @@ func init() {
 		ct := make([]byte, kemfrodo.CiphertextSize)
 		pk.(*kemfrodo.PublicKey).EncapsulateTo(ct, make([]byte, kemfrodo.SharedKeySize), eseed)
 		Register(
-			Entry{Name: "kem/frodo640shake.PublicKey.Unpack", Group: "kyber", Cost: 10, ExactLen: kemfrodo.PublicKeySize,
+			Entry{Name: "kem/frodo640shake.PublicKey.Unpack", Group: "kyber", Cost: 25, ExactLen: kemfrodo.PublicKeySize,
 				Call: func(b []byte) {
 					var k kemfrodo.PublicKey
 					k.Unpack(b)
@@ -251,7 +251,7 @@ func init() {
 					k.Pack(make([]byte, kemfrodo.PublicKeySize))
 				},
 				Valid: func(int) []byte { return pkb }},
-			Entry{Name: "kem/frodo640shake.PrivateKey.Unpack", Group: "kyber", Cost: 10, ExactLen: kemfrodo.PrivateKeySize,
+			Entry{Name: "kem/frodo640shake.PrivateKey.Unpack", Group: "kyber", Cost: 25, ExactLen: kemfrodo.PrivateKeySize,
 				Call: func(b []byte) {
 					var k kemfrodo.PrivateKey
 					k.Unpack(b)
@@ -260,7 +260,7 @@ func init() {
 					_ = k.Public()
 				},
 				Valid: func(int) []byte { return skb }},
-			Entry{Name: "kem/frodo640shake.PrivateKey.DecapsulateTo", Group: "kyber", Cost: 10, ExactLen: kemfrodo.CiphertextSize,
+			Entry{Name: "kem/frodo640shake.PrivateKey.DecapsulateTo", Group: "kyber", Cost: 25, ExactLen: kemfrodo.CiphertextSize,
 				Call:  func(b []byte) { sk.(*kemfrodo.PrivateKey).DecapsulateTo(make([]byte, kemfrodo.SharedKeySize), b) },
 				Valid: func(int) []byte { return ct }},
 		)
